@@ -16,12 +16,19 @@ whose target is not a plain local name:
   setattr-call / delattr-call           setattr(X, n, v), delattr(X, n)
   out-kwarg                             f(..., out=X)
   impure-call                           call into a hidden-state library (random, numpy.random, time, now()/today())
+  decorator                             a decorator other than staticmethod/classmethod/property(+setter/getter/deleter)
+                                        on a function, method or class: the name is rebound to whatever the decorator
+                                        returns (functools.lru_cache, a hand-written memo …) — root `global decorator:<name>`
 
 and classifies the ROOT of the written object:
 
   param k         the k-th positional parameter (0-based, counted with self) is the syntactic root
   self            `self` of a method
   global g        a module-level / imported / builtin name is the syntactic root
+                  persistent state that is not a module-level name is `global` too: a FREE variable bound in an
+                  enclosing function (closure cell, `closure:<outer>.<name>`, also `nonlocal` bindings), a parameter's
+                  default object (`default:<fn>.<param>`, or the module-level name it is), the class of an object
+                  (`type(x)`, `x.__class__`: `class-of:<x>`), function and class attributes (rooted at their name)
   localFresh      a local name (or expression) that can only denote objects created in this call
   localAlias r    a local name (or expression) that may denote an object reachable from a parameter, self or a
                   global (r names them, most dangerous first)
@@ -132,6 +139,36 @@ class EffectsError(Exception):
     pass
 
 
+def immutable_literal(e):
+    if isinstance(e, ast.Constant):
+        return True
+    if isinstance(e, ast.UnaryOp):
+        return immutable_literal(e.operand)
+    if isinstance(e, ast.BinOp):
+        return immutable_literal(e.left) and immutable_literal(e.right)
+    if isinstance(e, ast.Tuple):
+        return all(immutable_literal(x) for x in e.elts)
+    return False
+
+
+PURE_DECORATORS = {'staticmethod', 'classmethod', 'property', 'setter', 'getter', 'deleter'}
+
+
+def impure_decorators(decorator_list):
+    out = []
+    for d in decorator_list:
+        fn = d.func if isinstance(d, ast.Call) else d
+        last = fn.id if isinstance(fn, ast.Name) else (fn.attr if isinstance(fn, ast.Attribute) else None)
+        if last in PURE_DECORATORS:
+            continue
+        try:
+            name = ast.unparse(fn)
+        except Exception:
+            name = '<expr>'
+        out.append({'node': d, 'text': ast.unparse(d), 'name': name})
+    return out
+
+
 def err(mod, node, msg):
     line = getattr(node, 'lineno', 0)
     raise EffectsError(f'{mod.path}:{line} {msg}')
@@ -176,6 +213,7 @@ class Func:
         self.rows = {}
         self.calls = set()
         self.selfsite = ('site', ('selfinit', self.qual))
+        self.decorators = [] if self.is_lambda else impure_decorators(node.decorator_list)
 
     def param_tag(self, k):
         if k == 0 and self.has_self:
@@ -404,8 +442,16 @@ class World:
                     self.classes.add(f'{PKG}.{mod.name}.{s.name}')
                 for e in list(s.decorator_list) + list(s.bases) + [k.value for k in s.keywords]:
                     self.find_lambdas(mod, e, parent_f, pre, counter)
+                before = len(self.funcs)
                 for x in s.body:
                     visit(x, parent_f, s.name, pre + s.name + '.')
+                cdec = impure_decorators(s.decorator_list)
+                if cdec:
+                    methods = [g for g in self.funcs[before:] if g.cls == s.name]
+                    if not methods:
+                        err(mod, s, f'decorated class `{s.name}` without methods cannot be classified')
+                    holder = next((g for g in methods if g.name == '__init__'), methods[0])
+                    holder.decorators += cdec
                 return
             for fld, v in ast.iter_fields(s):
                 vs = v if isinstance(v, list) else [v]
@@ -520,6 +566,10 @@ class Analyzer:
         if root_name is not None and self.is_local_name(root_name):
             r['root_local'] = True
         r['root_comp'] = r.get('root_comp', False) or any(root_name in sc for sc in self.scopes)
+        if root_name is not None:
+            g = self.closure_owner(root_name)
+            if g is not None:
+                r['root_closure'] = f'closure:{g.qual}.{root_name}'
 
     # ---- name lookup ---------------------------------------------------------------------------
     def lookup(self, name, env):
@@ -532,9 +582,21 @@ class Analyzer:
         g = f.parent
         while g is not None:
             if name in g.local_names:
-                return set(g.env_join.get(name, ()))
+                # a free variable lives in a closure cell of the enclosing function: it outlives this call
+                return set(g.env_join.get(name, ())) | {('global', f'closure:{g.qual}.{name}')}
             g = g.parent
         return {('global', self.w.canon_global(self.mod, name))}
+
+    def closure_owner(self, name):
+        """the enclosing function in which the free variable `name` of this function is bound (None: not free)"""
+        if any(name in sc for sc in self.scopes) or (name in self.f.local_names and name not in self.f.nonlocal_decl):
+            return None
+        g = self.f.parent
+        while g is not None:
+            if name in g.local_names:
+                return g
+            g = g.parent
+        return None
 
     def is_local_name(self, name):
         if any(name in sc for sc in self.scopes):
@@ -573,12 +635,43 @@ class Analyzer:
         f = self.f
         env = Env()
         for k, p in enumerate(f.params):
-            self.assign_local(env, p, {f.param_tag(k)})
+            self.assign_local(env, p, {f.param_tag(k)} | self.default_tags(k, p))
+        for d in f.decorators:
+            self.row(d['node'], 'decorator', d['text'], None, {('global', 'decorator:' + d['name'])})
         if f.is_lambda:
             v = self.ev(f.node.body, env)
             self.w.grow(f.ret, v)
         else:
             self.block(f.node.body, env)
+
+    def default_tags(self, k, p):
+        """a parameter's default object is created once, at definition time, and shared by all calls: it is
+        persistent state (a global if the default is a module-level name, `default:<fn>.<param>` otherwise)"""
+        f, a = self.f, self.f.node.args
+        positional = a.posonlyargs + a.args
+        d = None
+        if k < len(positional):
+            j = k - (len(positional) - len(a.defaults))
+            if j >= 0:
+                d = a.defaults[j]
+        else:
+            for kw, dv in zip(a.kwonlyargs, a.kw_defaults):
+                if kw.arg == p:
+                    d = dv
+        if d is None or immutable_literal(d):
+            return set()
+        e, attrs = d, []
+        while isinstance(e, ast.Attribute):
+            attrs.append(e.attr)
+            e = e.value
+        if isinstance(e, ast.Name):
+            g, enclosing = f.parent, False
+            while g is not None:
+                enclosing = enclosing or e.id in g.local_names
+                g = g.parent
+            if not enclosing:
+                return {('global', '.'.join([self.w.canon_global(self.mod, e.id)] + attrs[::-1]))}
+        return {('global', f'default:{f.qual}.{p}')}
 
     def block(self, stmts, env):
         for s in stmts:
@@ -719,7 +812,11 @@ class Analyzer:
             self.row(node, 'global-assign', name, None, {('global', g)})
             return
         if name in f.nonlocal_decl:
-            self.row(node, 'nonlocal-assign', name, None, {('nonlocal', name)})
+            g = self.closure_owner(name)
+            owner = g.qual if g is not None else f.qual
+            self.row(node, 'nonlocal-assign', name, None, {('global', f'closure:{owner}.{name}')})
+            if g is not None:
+                self.w.grow(g.env_join.setdefault(name, set()), tags)
             return
         self.assign_local(env, name, tags)
 
@@ -787,7 +884,9 @@ class Analyzer:
             if tg.id in f.global_decl:
                 self.row(node, 'global-assign', tg.id, None, {('global', self.w.canon_global(self.mod, tg.id))})
             elif tg.id in f.nonlocal_decl:
-                self.row(node, 'nonlocal-assign', tg.id, None, {('nonlocal', tg.id)})
+                g = self.closure_owner(tg.id)
+                self.row(node, 'nonlocal-assign', tg.id, None,
+                         {('global', f'closure:{g.qual if g is not None else f.qual}.{tg.id}')})
         elif isinstance(tg, (ast.Tuple, ast.List)):
             for x in tg.elts:
                 self.delete(x, env, node)
@@ -819,6 +918,8 @@ class Analyzer:
             if e.attr in MUTATORS and self.resolve(e.value) not in NAMESPACES:
                 err(self.mod, e, f'bound in-place method `{ast.unparse(e)}` used as a value cannot be classified')
             v = self.ev(e.value, env)
+            if e.attr == '__class__':
+                return {('global', 'class-of:' + ast.unparse(e.value))}
             # param/self/global tags stand for everything reachable from them; for an object created here
             # X.a is what was stored in X.a (or anywhere unknown), and X itself for the numpy view attributes
             out = {t for t in v if not is_site(t)} | self.w.field(v, e.attr)
@@ -986,6 +1087,8 @@ class Analyzer:
                 if not e.args:
                     err(self.mod, e, 'call of `vars()` without argument cannot be classified')
                 return w.closure(pos[0])
+            if path == 'builtins.type' and len(e.args) == 1 and not e.keywords:
+                return {('global', 'class-of:' + ast.unparse(e.args[0]))}
             if path == 'builtins.getattr':
                 return w.closure(allargs)
             if path == 'builtins.super':
@@ -997,7 +1100,7 @@ class Analyzer:
                     self.store_into(pos[0], allargs)
                 return unknown_result()
             g = w.func_by_pkgpath.get(path)
-            if g is not None and g.cls is None and not g.is_lambda:
+            if g is not None and g.cls is None and not g.is_lambda and not g.decorators:
                 f.calls.add(g.qual)
                 return self.call_known(e, g, pos, kws, star)
             if path in w.classes:
@@ -1148,13 +1251,21 @@ def classify(w, f, r):
         if f.is_init and f.selfsite in tags:
             return ('self', None)
         return ('localFresh', None)
+    cls_of = [t for t in ext if t[0] == 'global' and t[1].startswith('class-of:')]
+    if cls_of:
+        return ('global', cls_of[0][1])       # a class object: shared by every instance and every call
     if root_name is None:
         return ('localAlias', desc)
+    if r.get('root_closure'):
+        return ('global', r['root_closure'])
     if not r['root_local']:
         return ('global', w.canon_global(f.mod, root_name))
     if root_name in f.params and not r['root_comp']:
         k = f.params.index(root_name)
         own = f.param_tag(k)
+        dflt = [t for t in ext if t[0] == 'global' and t[1].startswith('default:')]
+        if dflt:
+            return ('global', dflt[0][1])
         if f.is_init and k == 0 and f.has_self:
             # write through the object under construction into something it was given
             ps = [t for t in ext if t[0] == 'param' and t[1] == f.qual]
